@@ -81,6 +81,25 @@ Theorem C16_ignored_release_result_refuted :
   epoch (convert false 0 (answer w_good) 1 (mkC 0 [] [])) = 1.
 Proof. exact ignore_release_result_refuted. Qed.
 
+(* Process slots (MAX_PROCESS_COUNT = 8): every conversion, successful or failed while sending or while reading the
+   answer, returns or kills its process, so conversions never find the pool exhausted. *)
+Theorem C16_every_conversion_returns_its_slot :
+  forall o s, can_reserve s -> (started s <= MAXP)%nat ->
+  s_busy (conversion false o s) = s_busy s /\ (started (conversion false o s) <= MAXP)%nat.
+Proof. exact conversion_returns_its_slot. Qed.
+
+Theorem C16_sequential_conversions_never_block :
+  forall l s, s_busy s = O -> (started s <= MAXP)%nat ->
+  let s' := fold_left (fun st o => conversion false o st) l s in
+  s_busy s' = O /\ (started s' <= MAXP)%nat /\ can_reserve s'.
+Proof. exact sequential_conversions_never_block. Qed.
+
+(* seeded change C09-r8d-n1: an error in the read loop leaks the slot; eight malformed answers exhaust the pool *)
+Theorem C16_leaked_slots_exhaust_the_pool_refuted :
+  let s := fold_left (fun st o => conversion true o st) (repeat ErrorWhileReading 8) (mkS 0 0) in
+  s_busy s = 8%nat /\ s_idle s = O /\ ~ can_reserve s.
+Proof. exact leaked_slots_exhaust_the_pool_refuted. Qed.
+
 (* Detaching: detachConverterFromTag removes the tag's own streams from the converter's queue; a stream stays queued
    only if another tag that keeps the converter matches it.  This is the whole statement, by design of the code; the
    harness checks it right after every set-converter / delete-tag action (also while a converter job is in flight). *)
